@@ -104,7 +104,13 @@ func VerifClassify(err error) string {
 		return "eof"
 	}
 	if err == io.ErrUnexpectedEOF {
-		return "unexpectedEof"
+		return "reader" // a source that ended in the middle of something: same class as a failing reader
+	}
+	if strings.HasPrefix(err.Error(), "gzip:") || strings.HasPrefix(err.Error(), "flate:") {
+		if strings.Contains(err.Error(), "invalid header") {
+			return "other"
+		}
+		return "reader"
 	}
 	if strings.HasPrefix(err.Error(), "not a http block") {
 		return "notHttp"
@@ -180,7 +186,7 @@ func VerifClassify(err error) string {
 	case strings.Contains(msg, "end of record marker") || strings.HasPrefix(msg, "unexpected end of record"):
 		return "specTrailer"
 	case strings.Contains(msg, "unexpected EOF"):
-		return "unexpectedEof"
+		return "reader"
 	}
 	return "other"
 }
